@@ -120,3 +120,6 @@ w('C06', 'fixed_array_operands', 'DIM a(2), b(2)\nIF a = b THEN PRINT 1\n')
 w('C06', 'fixed_function_name_as_for_variable', 'FOR f = 1 TO 2\nNEXT\nFUNCTION f\nf = 1\nEND FUNCTION\n')
 w('C06', 'fixed_const_name_as_for_variable', 'CONST c = 1\nFOR c = 1 TO 2\nNEXT\n')
 w('C06', 'fixed_field_declaration_outside_type', 'x AS INTEGER\nIF x THEN y AS LONG\n')
+w('C06', 'fixed_const_ill_typed', 'CONST c% = 7 + "t"\n')
+w('C06', 'fixed_field_declaration_in_sub', 'SUB host\nsb AS INTEGER\nEND SUB\n')
+w('C06', 'fixed_input_stray_separator', 'INPUT ;; wx$\nINPUT , y\n')
